@@ -149,7 +149,35 @@ func TestVerifC17(t *testing.T) {
 					steps := []string{"sync", "sync", "sync", "edit-v2", "sync", "sync", "edit-v3", "sync", "unmatch-child", "sync", "sync", "delete", "sync", "sync"}
 					// fault position: -1 none, else the k-th request of the run fails with 500 (every position)
 					base := c17Build(cfg, []string{"p"})
+					c17Idents = nil
 					total := c17History(base, steps, -1, nil)
+					idents := map[string]bool{}
+					for _, id := range c17Idents {
+						idents[id] = true
+					}
+					// every request of the history, by identity, failing with the errors a loaded API server sheds
+					// requests with (the position-based loop below fails every position with a 500)
+					for _, id := range mc.SortedKeys(idents) {
+						for _, kind := range []string{"429", "server-timeout", "timeout", "403"} {
+							if kind == "403" && !mc.Thorough() {
+								continue
+							}
+							fid, fk := id, kind
+							dev := kit.M{"cfg": fmt.Sprintf("%+v", cfg), "fault": fk, "at": fid}
+							if !mc.MineKey(kit.JSON(dev)) {
+								continue
+							}
+							r.Case(dev, kit.JSON(dev), func() []mc.Finding {
+								var f []mc.Finding
+								w := c17Build(cfg, []string{"p"})
+								c17FaultID, c17FaultKind = fid, fk
+								c17History(w, steps, -2, func(key, msg string) {
+									f = append(f, mc.Finding{Key: "C17:" + key, Msg: fmt.Sprintf("%+v %s at %s: %s", cfg, fk, fid, msg)})
+								})
+								return f
+							})
+						}
+					}
 					for fault := -1; fault < total; fault++ {
 						idx++
 						if !mc.Mine(idx) {
@@ -186,11 +214,40 @@ func TestVerifC17(t *testing.T) {
 }
 
 // c17History drives one parent through a rollout history; returns the number of requests seen.
+// c17FaultID / c17FaultKind: with faultAt == -2 the n-th request with this identity ("verb resource ns/name#n",
+// counted over the whole history) fails in this way - the order in which the controller visits objects is not
+// fixed, the identity of a request is. c17Idents collects the identities of a fault-free run.
+var c17FaultID, c17FaultKind string
+var c17Idents []string
+
+func c17Fault(kind string) *sim.Fault {
+	switch kind {
+	case "429":
+		return &sim.Fault{Code: 429, Reason: "TooManyRequests"}
+	case "server-timeout":
+		return &sim.Fault{Code: 504, Reason: "Timeout"}
+	case "403":
+		return &sim.Fault{Code: 403, Reason: "Forbidden"}
+	case "timeout":
+		return &sim.Fault{Transport: true}
+	}
+	return &sim.Fault{Code: 500, Reason: "InternalError"}
+}
+
 func c17History(w *cworld, steps []string, faultAt int, bad func(key, msg string)) int {
 	count := 0
+	seen := map[string]int{}
 	w.Sim.Plan = func(q *sim.Request) *sim.Fault {
 		count++
-		if count-1 == faultAt {
+		seen[q.Ident()]++
+		id := fmt.Sprintf("%s#%d", q.Ident(), seen[q.Ident()])
+		if faultAt == -1 {
+			c17Idents = append(c17Idents, id)
+		}
+		if faultAt == -2 && id == c17FaultID {
+			return c17Fault(c17FaultKind)
+		}
+		if faultAt >= 0 && count-1 == faultAt {
 			return &sim.Fault{Code: 500, Reason: "InternalError"}
 		}
 		return nil
